@@ -53,6 +53,7 @@ CATALOGUES = {
         "U|u3|u4", "U|u4|u3",
         "X|custom|1", "S|o1|3|*", "S|2|3|*", "E|7|a+|2+|0|1|2|3$|*",
         "# gfa2 comment", "H|TS:i:10", "S|f|3|*|aa:A:c|bb:i:1",
+        "G|g3|a+|c-|7|*", "G|*|a+|b-|3|1", "F|a|y+|0|1|0|1|*", "U|u5|a e1", "O|o8|a+ e3+ c+",
     ], ids=["a", "b", "c", "e1", "e4", "g1", "o1", "o2", "u1", "u3", "zz", "2"], unused=True,
         renames=[("a", "d"), ("a", "b"), ("e1", "e9"), ("g1", "g9"), ("o1", "u1"), ("u1", "u2"), ("b", "e1"),
                  ("a", "8"), ("e1", "9"), ("2", "11"), ("a", "*"), ("e1", "*"), ("e4", "*"), ("g1", "*"), ("o1", "*"),
